@@ -24,7 +24,7 @@ Fixpoint filter_map {A B} (phi : A -> option B) (l : list A) : list B :=
   match l with [] => [] | x :: r => match phi x with Some y => y :: filter_map phi r | None => filter_map phi r end end.
 
 (* ---- the recorded forms ------------------------------------------------------------------------------- *)
-Record decl := { d_vars : list (nat * val); d_comps : list nat; d_keys : list (nat * val) }.
+Record decl := { d_vars : list (nat * val); d_comps : list nat; d_keys : list (nat * val); d_io : iopts }.
 Definition fm_eqb (a b : nat * mid) : bool := (fst a =? fst b) && mid_eqb (snd a) (snd b).
 (* declarations newest first *)
 Record sstate := { ss_decls : list (nat * decl); ss_slots : list ((nat * mid) * combo) }.
@@ -68,10 +68,44 @@ Definition s_set_slot (ss : sstate) (g : nat) (m : mid) (d : daemon) (b : body) 
   {| ss_decls := ss_decls ss; ss_slots := aset fm_eqb (g, m) (set_slot d b c) (ss_slots ss) |}.
 Definition s_acc (a : accs) (ds : list (nat * decl)) (f : nat) : list nat :=
   match a with AccNone => [] | AccAll => s_allvars ds f | AccList l => l end.
+
+(* ---- make-instance ------------------------------------------------------------------------------------------ *)
+(* the flavor's own declarations, as the code keeps them *)
+Definition s_initable (ds : list (nat * decl)) (f : nat) : list nat :=
+  match decl_of ds f with Some d => s_acc (io_inits (d_io d)) ds f | None => [] end.
+Definition s_required (ds : list (nat * decl)) (f : nat) : list nat :=
+  match decl_of ds f with Some d => io_reqs (d_io d) | None => [] end.
+(* the code's rule on the specification's tables: variables, defaults and keywords by precedence, but
+   inittable-ness and required keywords only from the instantiated flavor's own declaration *)
+Definition s_make_code (ds : list (nat * decl)) (f : nat) (args : list (nat * Z)) :=
+  init_gen (fun k => initable_of (s_initable ds f) k && isSome (s_var ds f k)) (fun k => isSome (s_key ds f k)) (s_required ds f) args.
+(* the property's rule: init keywords are inherited.  A variable is inittable in f when a flavor of prec f that has
+   the option lists it (when no flavor of prec f has the option: every variable, slip's default); the required
+   keywords are those of every flavor of prec f. *)
+Definition has_inits (ds : list (nat * decl)) (g : nat) : bool :=
+  match decl_of ds g with Some d => match io_inits (d_io d) with AccNone => false | _ => true end | None => false end.
+Definition s_initable_inh (ds : list (nat * decl)) (f k : nat) : bool :=
+  if existsb (has_inits ds) (prec ds f) then existsb (fun g => existsb (Nat.eqb k) (s_initable ds g)) (prec ds f) else true.
+Definition s_required_inh (ds : list (nat * decl)) (f : nat) : list nat := nub (flat_map (s_required ds) (prec ds f)).
+Definition s_make (ds : list (nat * decl)) (f : nat) (args : list (nat * Z)) :=
+  init_gen (fun k => s_initable_inh ds f k && isSome (s_var ds f k)) (fun k => isSome (s_key ds f k)) (s_required_inh ds f) args.
+(* guard: where the own-only rule of the code gives what inheritance demands (known findings
+   C11-initable-not-inherited, C11-required-keywords-not-inherited) *)
+Definition init_res_eqb (a b : option (list (nat * Z) * list (nat * Z))) : bool :=
+  let kz_eqb (x y : nat * Z) := (fst x =? fst y) && Z.eqb (snd x) (snd y) in
+  let fix leq (l r : list (nat * Z)) := match l, r with [], [] => true | x :: l', y :: r' => kz_eqb x y && leq l' r' | _, _ => false end in
+  match a, b with
+  | None, None => true
+  | Some (u, p), Some (u', p') => leq u u' && leq p p'
+  | _, _ => false
+  end.
+Definition g_init (ds : list (nat * decl)) (f : nat) (args : list (nat * Z)) : bool :=
+  init_res_eqb (s_make_code ds f args) (s_make ds f args).
+
 Definition sstep (ss : sstate) (x : form) : sstate :=
   match x with
-  | DFlavor f vars comps keys gets sets =>
-      let ds := (f, {| d_vars := set_all Nat.eqb [] vars; d_comps := comps; d_keys := set_all Nat.eqb [] keys |}) :: ss_decls ss in
+  | DFlavor f vars comps keys gets sets io =>
+      let ds := (f, {| d_vars := set_all Nat.eqb [] vars; d_comps := comps; d_keys := set_all Nat.eqb [] keys; d_io := io |}) :: ss_decls ss in
       let ss1 := {| ss_decls := ds; ss_slots := ss_slots ss |} in
       let ss2 := fold_left (fun s x => s_set_slot s f (MGet x) DPrimary (BGetter x)) (s_acc gets ds f) ss1 in
       fold_left (fun s x => s_set_slot s f (MSet x) DPrimary (BSetter x)) (s_acc sets ds f) ss2
@@ -82,14 +116,14 @@ Definition sstep (ss : sstate) (x : form) : sstate :=
    declared flavor.  vanilla-flavor itself is neither redefined, named as a component nor given methods. *)
 Definition form_ok (ds : list (nat * decl)) (x : form) : bool :=
   match x with
-  | DFlavor f _ comps _ _ _ =>
+  | DFlavor f _ comps _ _ _ _ =>
       negb (f =? vanilla) && negb (defined ds f) && forallb (fun c => negb (c =? vanilla) && defined ds c) comps
   | DMethod f _ _ _ _ => negb (f =? vanilla) && defined ds f
   end.
 (* forms that name vanilla-flavor itself are outside the specification *)
 Definition names_vanilla (x : form) : bool :=
   match x with
-  | DFlavor f _ comps _ _ _ => (f =? vanilla) || existsb (fun c => c =? vanilla) comps
+  | DFlavor f _ comps _ _ _ _ => (f =? vanilla) || existsb (fun c => c =? vanilla) comps
   | DMethod f _ _ _ _ => f =? vanilla
   end.
 Fixpoint wf_from (ss : sstate) (h : list form) : bool :=
@@ -101,7 +135,7 @@ Definition spec (h : list form) : sstate := s_run s_init h.
 (* what the implementation answers to a form that is not admissible (the state is then unchanged) *)
 Definition s_outcome (ds : list (nat * decl)) (x : form) : outcome :=
   match x with
-  | DFlavor f _ comps _ _ _ =>
+  | DFlavor f _ comps _ _ _ _ =>
       if (f =? vanilla) || defined ds f then ErrExists
       else if forallb (fun c => (c =? vanilla) || defined ds c) comps then Ok else ErrNoComponent
   | DMethod f _ _ _ _ => if (f =? vanilla) || defined ds f then Ok else ErrNoFlavor
